@@ -102,7 +102,13 @@ def trace_term(i, e, mode, trace):
 
 
 def rounds_term(e, start, obs):
+    """rounds of freshly started daemons from `start`"""
     return f"(CRounds {iw.cenv(e)} {iw.citem(start)} [" + "; ".join(iw.citem(o) for o in obs) + "])"
+
+
+def rounds_on_term(e, mode, first, obs):
+    """further rounds of the same daemons after one uninterrupted iteration of the destination's daemon on `first`"""
+    return f"(CRoundsOn {iw.cenv(e)} {iw.BEH[mode]} {iw.citem(first)} [" + "; ".join(iw.citem(o) for o in obs) + "])"
 
 
 # ---- the statements, on observations ------------------------------------------------------------------------------------
